@@ -7,6 +7,7 @@ import PhyModel.Proofs.GraphOfCreate2
 import PhyModel.Proofs.GraphOfStruct
 import PhyModel.Proofs.GraphOfGraft
 import PhyModel.Proofs.GraphOfDict
+import PhyModel.Proofs.GraphSim5
 /-! # C07 — every tree is a well-formed forest and no edit loses or duplicates data (store model)
 
 Property theorems only; the proofs are in `Proofs/StoreWF_*.lean` (one file per operation on top of
@@ -428,7 +429,7 @@ stores).  For each shape-changing structural operation of `Model/Store.lean`, th
 applied to `graphOf f` with the indices the structural operation chose succeeds and yields the live set and
 the edge multiset of `graphOf` of the structural result. -/
 section Link
-open PhyModel.Graph (graphOf mapIdx reindexMap)
+open PhyModel.Graph (graphOf mapIdx reindexMap graphsOf GEquiv)
 
 /-- the shape facts that hold by construction in `SF` are theorems about its graph -/
 theorem graph_of_forest {f : SF} (hn : f.idxs.Nodup) (h0 : 0 ∉ f.idxs) : IsForest (graphOf f) :=
@@ -489,6 +490,19 @@ theorem graph_fromDict {dt : Data} {s s' : Store} (hs : WF s ∧ Full s) (h : St
       (gFromDict s.toDict.edges (0 :: s.toDict.nodeIdxRev.map (·.1))).edges.Perm (graphOf s'.forest).edges :=
   Graph.graph_fromDict hs h
 
+/-- **every step of the store model is simulated by graph-level operations.**  `graphsOf sys` = the graphs of
+the live stores; `GEquiv` = same live set, same edge multiset.  Whatever edit `Store.step` performs on well-formed
+stores, there are legal graph-level operations (none for the data-point edits, `relabel`, `update`; one otherwise,
+with the indices the structural operation chose) that do not raise on `graphsOf sys` and end in the graphs of
+the new stores — so along every store history the structural forest is a correct abstraction of the
+primitive-level graph, and (`forest_step`) the graphs stay rooted forests. -/
+theorem graph_step {dt : Data} {sys sys' : Sys} {op : Op} (hall : ∀ s ∈ sys, WF s ∧ Full s)
+    (hstep : step dt sys op = some sys') :
+    (∃ gops : List GOp, (∀ o ∈ gops, GLegal o) ∧ ∃ gs', gRun (graphsOf sys) gops = some gs' ∧
+      List.Forall₂ GEquiv gs' (graphsOf sys')) ∧
+    ((∀ g ∈ graphsOf sys, IsForest g) → ∀ g ∈ graphsOf sys', IsForest g) :=
+  ⟨Graph.graph_step hall hstep, Graph.graph_step_forest hall hstep⟩
+
 /-! non-vacuity: on the store `t2` of section 6 (clone 1 above clone 0); further concrete instances with the
 graphs written out are at the end of `Proofs/GraphOfCreate(2)`, `GraphOfRemove`, `GraphOfGetSub`, `GraphOfGraft` -/
 section
@@ -503,6 +517,9 @@ example : WF t2 ∧ Full t2 ∧ (t2.createRootNode dt [1] [3]).isSome = true ∧
     sub.forest.idxs = [1] := by
   refine ⟨(wfB_iff _).1 (by decide +kernel), by unfold Full; decide +kernel, ?_⟩
   decide +kernel
+-- graph_step: the hypotheses hold on `[t2, sub]` (`Inv` ⊇ `WF ∧ Full`, section 6) and `.rmSub 0 1` does not raise
+example : (step dt [t2, sub] (.rmSub 0 1)).isSome = true ∧ graphsOf [t2, sub] =
+    [{ nodes := [0, 2, 1], edges := [(0, 2), (2, 1)] }, { nodes := [0, 1], edges := [(0, 1)] }] := by decide +kernel
 
 end
 end Link
